@@ -277,19 +277,16 @@ def c13_layout(perm: int, extra_col: bool, blank_at: int, n_blank: int, c_blank:
     if len(w1) != len(w2):
         return False
     for a, b in zip(w1, w2):
-        if a == b:
-            continue
-        ok = False
+        expected = a
         for r in range(2, 6):
-            if ("[row : " + str(r) + "]") in a:
+            tag = "[row : " + str(r) + "]"
+            if a.startswith(tag):
                 if "'choices' sheet" in a:
                     shift = c_blank
                 else:
                     shift = n_blank if blank_at <= r - 2 else 0
-                shifted = a.replace("[row : " + str(r) + "]", "[row : " + str(r + shift) + "]")
-                if shifted == b:
-                    ok = True
-        if not ok:
+                expected = "[row : " + str(r + shift) + "]" + a[len(tag):]
+        if b != expected:
             return False
     return True
 
